@@ -396,6 +396,52 @@ func runC05(c *run.Ctx) {
 		}
 	}
 	ggql.MaxResolveDepth = 100
+	// long lists in which many positions can not be represented: every one of them is null and has its own error (101,
+	// 130, 257 failing positions; flat and as inner lists; next to positions that are fine)
+	for li, total := range []int{101, 130, 257, 100} {
+		for _, bk := range []string{"iface", "any", "reflect"} {
+			for wi, w := range []string{"[T]", "[[T]]"} {
+				ti := 0 // Int
+				fname := fmt.Sprintf("f%d_%d", ti, map[string]int{"[T]": 2, "[[T]]": 4}[w])
+				if s.Type("Query").Field(fname) == nil {
+					continue
+				}
+				items := model.VList{}
+				for k := 0; k < total+total/3; k++ {
+					var e interface{} = "not a number"
+					if k%4 == 3 {
+						e = k
+					}
+					items = append(items, e)
+				}
+				var val interface{} = items
+				if w == "[[T]]" {
+					val = model.VList{items[:len(items)/2], model.VList{}, items[len(items)/2:]}
+				}
+				g := &model.Graph{}
+				root := &model.Node{ID: 0, Type: "__root", F: map[string]interface{}{}}
+				q := &model.Node{ID: 1, Type: "Query", F: map[string]interface{}{fname: val}}
+				q.F["obj"] = q
+				root.F["query"] = q
+				g.Root = root
+				g.Nodes = []*model.Node{root, q}
+				h, err := back.Build(bk, s, sdl, g)
+				if err != nil {
+					continue
+				}
+				doc := &model.Doc{Ops: []*model.Op{{Kind: "query", Shorthand: true, Sels: []model.Sel{&model.Field{Name: fname}}}}}
+				text := doc.Print(model.LayoutN(0))
+				out := Do(h, Request{Text: text}, nil)
+				exp := ref.Execute(s, doc, "", nil, g, nil, ref.Flags{})
+				c.Eval(fmt.Sprintf("long-list|%d|%s|%s", total, bk, w), true)
+				c.Count("long_lists_of_unrepresentable_leaves", 1)
+				if diff := Compare(exp, out, CompareOpts{}); diff != "" {
+					c.Violation("c05-long-list", map[string]interface{}{"backend": bk, "declared": w + " of Int", "failing_positions": len(exp.Errs), "diag": diff, "error_entries_observed": len(out.ErrPaths)})
+				}
+				_, _ = li, wi
+			}
+		}
+	}
 	c05Subscription(c, s, cat, flags)
 	// hostile values inside generated nested documents
 	nested := c.N(800, 30000)
